@@ -20,7 +20,7 @@ def zonal_funcs(prog, pubname):
     pub = m.funcs.get(pubname)
     if pub is None:
         raise AnalysisIncomplete('zonal.%s not found' % pubname)
-    fs = [g for g in reachable(prog, pub, 6) if g.module is m and 'cupy' not in g.qualname]
+    fs = [g for g in reachable(prog, pub, 6) if prog.same_unit(m, g.module) and 'cupy' not in g.qualname]
     return m, pub, fs
 
 
@@ -111,7 +111,7 @@ def cursor_floor(prog, rep, pub, per_backend):
     best = {}
     for p in backend_paths(prog, pub):
         t = p.func()
-        if not isinstance(t, Func) or 'cupy' in p.backend or t.module is not pub.module:
+        if not isinstance(t, Func) or 'cupy' in p.backend or not prog.same_unit(pub.module, t.module):
             continue
         reach = list(reachable(prog, t, 6))
         names = {g.qualname for g in reach}
@@ -434,7 +434,7 @@ def nodata_params(prog, f, pubname='nodata_values'):
                     from .backends import backend_paths as _bp
                     for pth in _bp(prog, g):
                         t = pth.func()
-                        if not isinstance(t, Func) or t.module is not m:
+                        if not isinstance(t, Func) or not prog.same_unit(m, t.module):
                             continue
                         bound = dict(zip(t.params, pth.args))
                         bound.update(pth.keywords)
@@ -455,7 +455,7 @@ def nodata_params(prog, f, pubname='nodata_values'):
                     while t is not None and t.__class__.__name__ == 'Partial':
                         pre.update(t.keywords)
                         t = t.target
-                    if t is None or t.__class__.__name__ != 'Func' or t.module is not m:
+                    if t is None or t.__class__.__name__ != 'Func' or not prog.same_unit(m, t.module):
                         continue
                     bound = dict(zip(t.params, c.args))
                     bound.update({k.arg: k.value for k in c.keywords if k.arg})
@@ -693,7 +693,7 @@ def check_index_space(prog, rep, fs, entry_of):
                     t_ = prog.resolve_callable(g, g.module, c.func)
                 except Exception:      # noqa
                     continue
-                if isinstance(t_, Func) and t_.module is g.module and t_ is not g and sorts(t_, depth + 1):
+                if isinstance(t_, Func) and prog.same_unit(g.module, t_.module) and t_ is not g and sorts(t_, depth + 1):
                     return True
             return False
         if rets and len(rets[-1].value.elts) >= 3 and sorts(f) and not stride_calls and \
@@ -735,7 +735,7 @@ def check_index_space(prog, rep, fs, entry_of):
                         t_ = prog.resolve_callable(func, func.module, e.func)
                     except Exception:      # noqa
                         t_ = None
-                    if isinstance(t_, Func) and t_.module is func.module and t_.jit is None and depth < 2 and not e.keywords and \
+                    if isinstance(t_, Func) and prog.same_unit(f.module, t_.module) and t_.jit is None and depth < 2 and not e.keywords and \
                             len(e.args) == len(t_.params):
                         sub_space = {p_: sp(a_) for p_, a_ in zip(t_.params, e.args)}
                         sub_perms = {p_ for p_, a_ in zip(t_.params, e.args) if isinstance(a_, ast.Name) and a_.id in perms}
@@ -788,7 +788,7 @@ def check_index_space(prog, rep, fs, entry_of):
                         t_ = prog.resolve_callable(func, func.module, s_.value.func)
                     except Exception:      # noqa
                         t_ = None
-                    if isinstance(t_, Func) and t_.module is func.module and t_.jit is None and depth < 2 and not s_.value.keywords and \
+                    if isinstance(t_, Func) and prog.same_unit(f.module, t_.module) and t_.jit is None and depth < 2 and not s_.value.keywords and \
                             len(s_.value.args) == len(t_.params):
                         sub_space = {p_: sp(a_) for p_, a_ in zip(t_.params, s_.value.args)}
                         sub_perms = {p_ for p_, a_ in zip(t_.params, s_.value.args) if isinstance(a_, ast.Name) and a_.id in perms}
@@ -848,8 +848,8 @@ def check_nan_results(prog, rep, fs, entry_of):
                         isinstance(st.targets[0].value, ast.Name):
                     res = st.targets[0].value.id
                     inits = [v for v in f.local_assigns().get(res, []) if isinstance(v, ast.AST)]
-                    init_ok = any(isinstance(v, ast.Call) and short(v) == 'full' and len(v.args) >= 2 and
-                                  norm(v.args[1]) in ('np.nan', 'numpy.nan') for v in inits)
+                    from .astutil import nan_initialised
+                    init_ok = nan_initialised(f.node, res)
                     a0 = norm(c.args[0])
                     pos = ('len(%s)>0' % a0, '%s.size>0' % a0, 'len(%s)!=0' % a0, '%s.shape[0]>0' % a0, 'len(%s)>=1' % a0)
                     neg = ('len(%s)==0' % a0, '%s.size==0' % a0, 'notlen(%s)' % a0, '%s.shape[0]==0' % a0, 'len(%s)<1' % a0)
@@ -1267,7 +1267,7 @@ def ids_param(prog, g, depth=0):
             t_ = prog.resolve_callable(g, g.module, c.func)
         except Exception:      # noqa
             continue
-        if isinstance(t_, Func) and t_ is not g and t_.module is g.module:
+        if isinstance(t_, Func) and t_ is not g and prog.same_unit(g.module, t_.module):
             r = ids_param(prog, t_, depth + 1)
             if r is not None:
                 b_ = dict(zip(t_.params, c.args))
@@ -1328,7 +1328,26 @@ def check_crosstab_merge(prog, rep, m, entry):
             blk = lp.target.id
         else:
             continue
-        for inner in [y for y in lp.body if isinstance(y, ast.For)]:
+        # a local that names the block of this turn (`b = blocks[i]`) reads as the expression it stands for
+        alias = {}
+        body_ = []
+        for y in lp.body:
+            if isinstance(y, ast.Assign) and len(y.targets) == 1 and isinstance(y.targets[0], ast.Name) and \
+                    not any(isinstance(z, ast.Call) for z in ast.walk(y.value)) and \
+                    sum(1 for z in ast.walk(lp) if isinstance(z, ast.Name) and isinstance(z.ctx, ast.Store) and z.id == y.targets[0].id) == 1:
+                alias[y.targets[0].id] = y.value
+                continue
+            body_.append(y)
+        if alias:
+            import copy as _copy
+
+            class _Sub(ast.NodeTransformer):
+                def visit_Name(self, n_):
+                    if isinstance(n_.ctx, ast.Load) and n_.id in alias:
+                        return self.visit(_copy.deepcopy(alias[n_.id]))
+                    return n_
+            body_ = [_Sub().visit(_copy.deepcopy(y)) for y in body_]
+        for inner in [y for y in body_ if isinstance(y, ast.For)]:
             if len(inner.body) != 1 or not isinstance(inner.body[0], ast.AugAssign) or not isinstance(inner.body[0].op, ast.Add):
                 continue
             a = inner.body[0]
